@@ -29,11 +29,13 @@ COMPONENTS = {
     "real": ["pce500/emulator.py save_snapshot/load_snapshot (real zip files in a per-process scratch dir)",
              "sc62015/core/src/lib.rs CoreRuntime::save_snapshot/load_snapshot", "sc62015/core/src/snapshot.rs",
              "timer.rs snapshot_info/apply_snapshot_info", "keyboard.rs snapshot_state/load_snapshot_state",
-             "lcd.rs export_snapshot/load_snapshot", "both machines' step loops"],
+             "lcd.rs export_snapshot/load_snapshot", "both machines' step loops",
+             "memory.rs export_flat_external/import_overlay_data_from_flat + PCE500Memory.export_flat_memory (RAM-expansion overlays)",
+             "device.rs DeviceModel::configure_runtime + sio.rs SioStub (device-configured Rust machine, every boundary a crash point)"],
     "stub": ["zip container writer/reader for the Rust side is /verif/rust/zipshim (crates.io zip is unavailable offline)",
              "binja_test_mocks", "perfetto compiled out", "synthetic firmware"],
 }
-ASSUMPTIONS = ["the restarted emulator is constructed with the same constructor arguments and ROM image",
+ASSUMPTIONS = ["the restarted emulator is constructed with the same constructor arguments, ROM image and (empty) RAM-expansion overlays",
                "diagnostic counters, creation time, bit-watch tables and call-depth bookkeeping are not compared"]
 PROBES = ["crash_halted", "crash_off", "crash_in_handler", "crash_pending_masked", "crash_key_held", "crash_key_latched",
           "crash_timer_within_2", "crash_lcd_written", "crash_after_lcd_read", "crash_fifo_nonempty", "crash_before_wait",
